@@ -249,11 +249,33 @@ func TestVerifC02(t *testing.T) {
 		}
 		for si, sr := range pop.Searches {
 			line := ""
-			p := func() (p interface{}) {
-				defer func() { p = recover() }()
-				line = verifC02Search(pi, si, base, readers, tagDetails, sr, mw)
-				return nil
+			// watchdog: query.Parse is exponential for some shapes (C14's topic); never stall or eat memory
+			type outcome struct {
+				line string
+				p    interface{}
+			}
+			done := make(chan outcome, 1)
+			go func() {
+				o := outcome{}
+				defer func() {
+					o.p = recover()
+					done <- o
+				}()
+				o.line = verifC02Search(pi, si, base, readers, tagDetails, sr, mw)
 			}()
+			var p interface{}
+			select {
+			case o := <-done:
+				line, p = o.line, o.p
+			case <-time.After(20 * time.Second):
+				fmt.Fprintf(w, "R %d %d SLOW search or query.Parse did not return within 20s: %s\n", pi, si, sr.Q)
+				w.Flush()
+				if mw != nil {
+					mw.Flush()
+				}
+				of.Sync()
+				os.Exit(3)
+			}
 			if p != nil {
 				line = fmt.Sprintf("R %d %d PANIC %v", pi, si, p)
 				if mw != nil {
